@@ -91,7 +91,7 @@ def check_case(spec, recs, mode, cuts, rep="rec"):
         for r, w in zip(piece, wrow):
             hr.fill(r, w)
         dn, dr = hn.toJson(), hr.toJson()
-        if any(inexact_nodes(spec, r) for r in recs[:hi]):
+        if histogram_fastpath(spec) and any(inexact_nodes(spec, r) for r in recs[:hi]):
             # index arithmetic rounds for one of these rows: the two paths may legitimately pick adjacent bins;
             # only conservation of the root total is asserted
             en = dn["data"]["entries"] if isinstance(dn["data"], dict) else dn["data"]
@@ -106,6 +106,15 @@ def check_case(spec, recs, mode, cuts, rep="rec"):
                                    {"piece": [lo, hi]}))
             return out
     return out
+
+
+def histogram_fastpath(spec):
+    """A Bin/CentrallyBin of plain Counts may be filled through np.histogram, whose binning arithmetic differs from
+    the scalar formula in the last bit; every other node uses the same formula in both paths."""
+    for _, _, n in S.node_ids(spec):
+        if n["t"] in ("Bin", "CentrallyBin") and n["v"]["t"] == "Count" and not n["v"].get("tr"):
+            return True
+    return False
 
 
 def quantity_bearing(spec):
@@ -144,6 +153,9 @@ def plan(spec, tier):
 def numpy_alphabet(spec, level, cap):
     """Records restricted to what a numpy column can hold: c in str menu, s numeric."""
     recs = A.records(spec, level, cap=None)
+    if level == "full" and "s" in S.fields(spec):
+        # an infinite selection weight (differential oracle only: the reference model has no infinite weights)
+        recs = recs + [dict(r, s=float("inf")) for r in recs if r["s"] is True]
     seen, out = set(), []
     for r in recs:
         r = dict(r)
@@ -232,7 +244,7 @@ def trees(tier):
     t += S.D3_quick() + S.D3flow()
     if tier != "quick":
         t += S.D3()
-    t += [x for x in S.DX() if quantity_bearing(x)]
+    t += [x for x in S.DX() if quantity_bearing(x)] + S.NDX()
     seen, out = set(), []
     for s in t:
         k = S.key(s)
